@@ -154,6 +154,7 @@ impl Checker<'_> {
     /// Run one entry point under the panic and step monitors and judge it.
     fn guarded(&mut self, ep: &str, b: &[u8], detail: serde_json::Value, f: impl FnOnce() -> Outcome) {
         let budget = step_budget(b.len());
+        self.rep.breadcrumb(|| json!({"entry": ep, "detail": detail.clone(), "hex": hex(b)}));
         decoder_verif::reset(budget * 4);
         let t0 = std::time::Instant::now();
         let r = mon::catch(f);
